@@ -64,3 +64,39 @@ def symbols(body, inline=None, max_paths=400000, ctx=None):
         if sym:
             out.setdefault(sym, set()).add(v[2])
     return out
+
+
+def left_right_split(ctx, rule):
+    """get_left_and_right returns (term parsed from the text before the symbol, term parsed from the text after it).
+    Shared by C12/R2 and C14/R4: both the arithmetic and the comparison infix forms take their operands from it."""
+    from sym import mentions
+    prog = ctx.prog
+    GL = prog.one("parse_goals::get_left_and_right")
+    if GL is None:
+        ctx.missing(rule, "get_left_and_right")
+        return
+    ctx.fn(GL)
+    import inline
+    okg, n = True, 0
+    for p in Walker(GL, max_visits=2, inline=inline.helpers(prog)).paths():
+        if p.end != "return" or p.ret[0] != "agg" or p.ret[2] != "Ok":
+            continue
+        n += 1
+        tup = strip(dict(p.ret[3]).get("0"))
+        if tup[0] != "tuple" or len(tup[1]) != 2:
+            okg = False
+            continue
+
+        def side(t):
+            # which slice of the characters a term was parsed from: "before" (..index) or "after" (index+size..)
+            if mentions(t, lambda x: x[0] == "agg" and x[1].endswith("RangeFrom")):
+                return "after"
+            if mentions(t, lambda x: x[0] == "agg" and x[1].endswith("ops::RangeTo")):
+                return "before"
+            if mentions(t, lambda x: x[0] == "agg" and x[1].endswith("ops::Range") and dict(x[3]).get("start", ("", "", "", None))[3] == 0):
+                return "before"
+            return "?"
+        if (side(tup[1][0]), side(tup[1][1])) != ("before", "after"):
+            okg = False
+    ctx.ob(rule, "left-right-split", okg and n > 0, ctx.where(GL),
+           "get_left_and_right returns (term parsed from the text before the symbol, term parsed from the text after it)")
